@@ -15,10 +15,14 @@ PROP_BITS = (1, 2, 3, 4, 5, 6)      # array / views / etymdict / rows-cols-len /
 SHARD = 65
 
 
-def small_scope(max_rows):
+NAMES_CASE = (["Ab", "aB"], ["x", "X"])
+NAMES_NFD = (["Gua\u0303a", "Gu\u00e3a"], ["e\u0301", "\u00e9"])     # decomposed vs composed spelling
+
+
+def small_scope(max_rows, names=NAMES_CASE):
     """Exhaustive: every wordlist with up to max_rows rows over two languages that collide under case
     folding, two such concepts and two cognate ids; non-contiguous ids in non-sorted insertion order."""
-    langs, concepts, cogs, ids = ["Ab", "aB"], ["x", "X"], [1, 2], [7, 2, 40]
+    (langs, concepts), cogs, ids = names, [1, 2], [7, 2, 40]
     slots = list(itertools.product(concepts, langs, cogs))
     q = {"entries": ["", "COGID"], "refs": ["cogid"], "items": ["taxa", "GLOSS", "cogid"],
          "iter": ["doculect", "concept", "cogid"], "dst": [("cogid", False), ("cogid", True)],
@@ -43,7 +47,7 @@ def streams(tier, seed):
     nrand = 260 if tier == "quick" else 10000
     rand = [W.gen_case(rng, size=4) for _ in range(nrand)]
     files = [W.gen_case(rng, size=3, source="file") for _ in range(12 if tier == "quick" else 300)]
-    small = list(small_scope(2 if tier == "quick" else 3))
+    small = list(small_scope(2 if tier == "quick" else 3)) + list(small_scope(2 if tier == "quick" else 3, NAMES_NFD))
     if tier == "quick":
         three = list(small_scope(3))[72:]
         small += [c for i, c in enumerate(three) if i % 16 == seed % 16]
@@ -78,8 +82,9 @@ def main(tier, seed, prop=PROP, prop_bits=PROP_BITS):
     c["rule"] = ("case = (header spelling, rows as a dictionary or a written file, history of add_entries/renumber "
                  "steps, queries); every accessor's full return value is observed before and after the history. "
                  "Streams: corpus; exhaustive small scope (all wordlists with <= %s rows over 2 case-colliding "
-                 "languages x 2 case-colliding concepts x 2 cognate ids%s); seeded random wordlists (1-4 languages, 1-4 "
-                 "concepts, 0-3 words per cell, non-contiguous ids, synonyms, empty cells, Latin-1 names, names equal "
+                 "languages x 2 case-colliding concepts x 2 cognate ids%s, and the same over names that differ by "
+                 "unicode normalisation form only); seeded random wordlists (1-4 languages, 1-4 "
+                 "concepts, 0-3 words per cell, non-contiguous ids, synonyms, empty cells, Latin-1 names, names that are not NFC-normal, names equal "
                  "under case folding, list-valued cognate ids, aliases in lower/upper case, malformed inputs the "
                  "constructor rejects); written files. Non-trivial = at least two languages or two concepts and a "
                  "synonym or an empty cell; distinct by full input."
